@@ -13,6 +13,13 @@ C12.b  [path]  a replay verdict (`v = ReplayError(...)`) cannot be lost: no path
                definition reaches the normal exit without passing `v = None`; the
                only such kill needs decrypt success, an uninitialised window, the
                echo comparison on the *decrypted* message, and records the number.
+               A kill is `v = None` *reached while v may hold a verdict*: the
+               obligations are owed on those arrivals of modelled paths only (the
+               same statement reached with v None clears nothing), and "records the
+               number" is a statement about the accepting paths through the kill (an
+               initialize_from_freshlyseen completes on each), not about dominance --
+               so the bookkeeping may live in an expanded helper that returns a flag
+               or the error still to be raised.
 C12.c  [nf]    window arithmetic against the reference model (Appendix A.11), by
                symbolic execution of the (loop free) ReplayWindow methods over
                polynomial normal forms and a truth table over comparison atoms.
@@ -418,15 +425,23 @@ class SiteFacts:
         self._pf[key] = live
         return live
 
-    def at(self, nid, transparent=frozenset()):
-        """[(expr, polarity, via)] -- the atomic facts that hold whenever control reaches node nid."""
+    def at(self, nid, transparent=frozenset(), arrivals=None):
+        """[(expr, polarity, via)] -- the atomic facts that hold whenever control reaches node nid.  With `arrivals`
+        (a non-empty list of (path, position) pairs taken from `states_at(nid)`): the facts that hold on each of those
+        arrivals ("whenever control reaches nid in a state in which ...")."""
         transparent = frozenset(transparent)
-        ck = (nid, transparent)
-        if ck in self._cache:
+        ck = (nid, transparent) if arrivals is None else None
+        if ck is not None and ck in self._cache:
             return self._cache[ck]
         common = None
-        for p in self.pm.paths_through(nid):
-            idxs = [i for i, n in enumerate(p.nodes) if n == nid]
+        if arrivals is not None:
+            by_path = {}
+            for p, i in arrivals:
+                by_path.setdefault(id(p), (p, []))[1].append(i)
+            todo = list(by_path.values())
+        else:
+            todo = [(p, [i for i, n in enumerate(p.nodes) if n == nid]) for p in self.pm.paths_through(nid)]
+        for p, idxs in todo:
             for i in idxs:
                 live = self._path_facts(p, i, transparent)
                 if common is None:
@@ -443,7 +458,8 @@ class SiteFacts:
             out = facts_at(self.cfg, self.fi.node, nid)
         else:
             out = sorted(common.values(), key=lambda t: (getattr(t[0], "lineno", 0), getattr(t[0], "col_offset", 0), t[1]))
-        self._cache[ck] = out
+        if ck is not None:
+            self._cache[ck] = out
         return out
 
     def passed(self, nid):
@@ -1239,6 +1255,8 @@ def _unprotect(ctx):
     for w in writes_to_name(fi.node, u.v):
         if w in u.defs:
             continue
+        if isinstance(w, ast.Assign) and all(isinstance(t, ast.Name) and t.id == u.v for t in w.targets) and isinstance(w.value, ast.Name) and w.value.id == u.v:
+            continue  # `v = v` (the "verdict stays" arm of `v = None if fresh else v` / of an expanded helper): not a write
         ok = isinstance(w, ast.Assign) and len(w.targets) == 1 and isinstance(w.targets[0], ast.Name) and isinstance(w.value, ast.Constant) and w.value.value is None
         ctx.need(ok, "the verdict variable is written by something other than ReplayError(...) or None: %s" % stmt_text(w))
         u.kills.append(w)
@@ -1562,25 +1580,6 @@ def b(ctx):
     u = _unprotect(ctx)
     fi, cfg, sf = u.fi, u.cfg, u.sf
     pm = sf.pm
-    avoid = u.kill_nodes | u.none_outcomes
-    for d in u.defs:
-        dn = cfg.loc1(d)
-        # graph reachability over-approximates the modelled paths: when it finds nothing, no path exists; when it
-        # finds something, only a path with consistent decisions counts (a verdict defined under X and raised under
-        # `if X:` is not lost although the graph has an edge sequence around the raise)
-        ok = cfg.exit not in reach_cut(cfg, {dn}, avoid=avoid)
-        lost = None
-        if not ok:
-            for p in pm.paths_through(dn):
-                if p.end != "return":
-                    continue
-                j = max(i for i, n in enumerate(p.nodes) if n == dn)
-                if not any(n in avoid for n in p.nodes[j + 1:]):
-                    lost = p
-                    break
-            ok = lost is None
-        ctx.ob("no path from the replay verdict to the normal return except through the authenticated kill", ok, fi, d,
-               detail=None if ok else "path: %s (%s)" % (witness(cfg, dn, cfg.exit, avoid=avoid), pm.describe(lost)))
     live_kills = [k for k in u.kills if any(cfg.loc1(k) in cfg.reach({cfg.loc1(d)}) for d in u.defs)]
     dec_results = set()
     for c in u.dec_calls:
@@ -1603,8 +1602,9 @@ def b(ctx):
                     plain.add(n.targets[0].id)
                     grew = True
 
-    def echo_fact(facts):
-        """(message expr, other operand, comparison) of a fact `<m>.opt.echo == self.<...>` that holds."""
+    def echo_facts(facts):
+        """[(message expr, other operand, comparison)] of the facts `<m>.opt.echo == self.<...>` that hold."""
+        out = []
         for e, pol, via in facts:
             if isinstance(e, ast.Compare) and len(e.ops) == 1 and isinstance(e.ops[0], (ast.Eq, ast.NotEq)):
                 if isinstance(e.ops[0], ast.Eq) != pol:
@@ -1614,22 +1614,17 @@ def b(ctx):
                     x, y = resolve_local(fi.node, x), resolve_local(fi.node, y)
                     bm = match("$m.opt.echo", x)
                     if bm is not None and chain(y) is not None and chain(y).startswith("self."):
-                        return bm["m"], y, e
-        return None
+                        out.append((bm["m"], y, e))
+                        break
+        return out
 
-    def uninit_fact(facts):
-        # SiteFacts drops a window-state fact once a mutator ran after it was evaluated (also when it was evaluated
-        # into a local and branched on later), so a fact found here describes the window as it is at the site
-        return any(isinstance(e, ast.Call) and isinstance(e.func, ast.Attribute) and e.func.attr == "is_initialized" and not pol for e, pol, _ in facts)
+    def echo_fact(facts):
+        got = echo_facts(facts)
+        return got[0] if got else None
 
-    def check_echo(site, nid, what):
-        facts = sf.at(nid)
-        ef = echo_fact(facts)
-        ctx.ob("%s requires the Echo option to equal this process's recovery value" % what, ef is not None, fi, site,
-               detail="facts at the site: %s" % show_facts(facts) if ef is None else None)
-        if ef is None:
-            return
-        m, other, cmp_e = ef
+    def decoded_echo(m, cmp_e):
+        """The message whose Echo option is compared is a local of unprotect that is only ever bound after a successful
+        decryption and whose options were decoded from the decrypted plaintext before the comparison."""
         ok = isinstance(m, ast.Name) and m.id not in params(fi) and m.id != "self"
         if ok:
             ws = writes_to_name(fi.node, m.id)
@@ -1638,22 +1633,139 @@ def b(ctx):
             tn = cfg.loc1(cmp_e)
             decs = [c for c in mcalls(fi.node, "decode") if chain(c.func.value) == "%s.opt" % m.id and c.args and names_in(c.args[0]) and names_in(c.args[0]) <= plain]
             ok = any(cfg.dominates(cfg.loc1(c), tn) for c in decs)
+        return ok
+
+    def uninit_fact(facts):
+        # SiteFacts drops a window-state fact once a mutator ran after it was evaluated (also when it was evaluated
+        # into a local and branched on later), so a fact found here describes the window as it is at the site
+        return any(isinstance(e, ast.Call) and isinstance(e.func, ast.Attribute) and e.func.attr == "is_initialized" and not pol for e, pol, _ in facts)
+
+    def check_echo(site, nid, what, arrivals=None):
+        facts = sf.at(nid, arrivals=arrivals)
+        ef = echo_fact(facts)
+        ctx.ob("%s requires the Echo option to equal this process's recovery value" % what, ef is not None, fi, site,
+               detail="facts at the site: %s" % show_facts(facts) if ef is None else None)
+        if ef is None:
+            return
+        m, other, cmp_e = ef
+        ok = decoded_echo(m, cmp_e)
         ctx.ob("the Echo option compared is the one decoded from the decrypted plaintext", ok, fi, cmp_e)
         ctx.ob("the Echo option is compared with self.echo_recovery", chain(other) == "self.echo_recovery", fi, cmp_e)
+
+    def clearing_arrivals(kn):
+        """The arrivals [(path, position)] of modelled paths at the statement `v = None` at which v may hold a verdict,
+        or None when the statement lies on no modelled path.
+
+        `v = None` executed while v is None changes nothing: it is not a kill.  Such statements appear whenever the
+        bookkeeping is written as "compute the error that is still to be raised" (`v = self._remaining(v, ...)` with
+        `return None` in the arms that had nothing pending: the response arm, the `v is None` strike-out arm) -- the
+        obligations on a kill are owed only where a verdict can actually be cleared.  v is known to be None at an
+        arrival when the path binds it to None last (`Values`: the initial `v = None`, no definition passed since) or
+        when a test `v is None` / `not v` decided so and v was not rebound since (live path fact)."""
+        sts = sf.states_at(kn)
+        if not sts:
+            return None
+        real = []
+        for p, i, st in sts:
+            if st.env.get(u.v) == ("const", None):
+                continue
+            if _verdict_none(list(sf._path_facts(p, i).values()), u.v):
+                continue
+            real.append((p, i))
+        return real
+
+    def completes_normally(p, j):
+        """The statement at position j of path p ran to completion (the path does not leave it along an exceptional
+        edge)."""
+        if j + 1 >= len(p.nodes):
+            return False
+        labs = {lab for d, lab in cfg.succ[p.nodes[j]] if d == p.nodes[j + 1]}
+        return bool(labs) and "exc" not in labs
+
+    init_nodes = {cfg.loc1(c) for c in u.inits}
+
+    def recovery_event(p, after):
+        """Does path p, behind position `after`, run an authenticated recovery: an initialize_from_freshlyseen that
+        completes, entered while -- on this path -- the window was uninitialised and the Echo option decoded from the
+        decrypted plaintext equalled self.echo_recovery (the conditions demanded of a kill, read off the path)?"""
+        for j in range(after + 1, len(p.nodes)):
+            if p.nodes[j] not in init_nodes or not completes_normally(p, j):
+                continue
+            if not after_normal(cfg, u.dec, p.nodes[j]) or not after_normal(cfg, u.post, p.nodes[j]):
+                continue
+            facts = list(sf._path_facts(p, j).values())
+            if not uninit_fact(facts) or any(_side(e, pol, u.msg) == "response" for e, pol, _ in facts):
+                continue
+            if any(decoded_echo(m, cmp_e) and chain(other) == "self.echo_recovery" for m, other, cmp_e in echo_facts(facts)):
+                return True
+        return False
+
+    # A verdict is lost when the request is accepted (normal return) although a verdict was defined on the way.  Ways
+    # out that are not a loss: the path passes a `v = None` (checked as a kill below), a test that found v None (only
+    # feasible behind a kill), or -- however the pending verdict is carried and dropped: under another name
+    # (`remaining = None | v` ... `if remaining is not None: raise remaining`), in a flag -- the path itself runs the
+    # authenticated recovery (`recovery_event`): those are exactly the conditions under which a kill is legitimate, so
+    # accepting the request on such a path is what the kill would have done.
+    avoid = u.kill_nodes | u.none_outcomes
+    for d in u.defs:
+        dn = cfg.loc1(d)
+        # graph reachability over-approximates the modelled paths: when it finds nothing, no path exists; when it
+        # finds something, only a path with consistent decisions counts (a verdict defined under X and raised under
+        # `if X:` is not lost although the graph has an edge sequence around the raise)
+        ok = cfg.exit not in reach_cut(cfg, {dn}, avoid=avoid)
+        lost = None
+        if not ok:
+            for p in pm.paths_through(dn):
+                if p.end != "return":
+                    continue
+                j = max(i for i, n in enumerate(p.nodes) if n == dn)
+                if not any(n in avoid for n in p.nodes[j + 1:]) and not recovery_event(p, j):
+                    lost = p
+                    break
+            ok = lost is None
+        ctx.ob("no path from the replay verdict to the normal return except through the authenticated kill", ok, fi, d,
+               detail=None if ok else "path: %s (%s)" % (witness(cfg, dn, cfg.exit, avoid=avoid), pm.describe(lost)))
 
     for k in live_kills:
         kn = cfg.loc1(k)
         ctx.ob("the verdict is cleared only after the AEAD decrypt call returned normally", after_normal(cfg, u.dec, kn), fi, k)
         ctx.ob("the verdict is cleared only after _post_decrypt_checks returned normally", after_normal(cfg, u.post, kn), fi, k)
-        check_echo(k, kn, "clearing the verdict")
+        real = clearing_arrivals(kn)
+        if real is not None and not real:
+            ctx.note("a `%s` in unprotect is reached only while the verdict variable is None: it clears nothing" % stmt_text(k))
+            ctx.ob("a verdict assignment that is reached only while no verdict is pending clears nothing", True, fi, k)
+            continue
+        check_echo(k, kn, "clearing the verdict", arrivals=real)
         # the recording initialize_from_freshlyseen(number) belongs to the kill (next obligation): the window must
         # have been uninitialised when *that* ran, i.e. its own effect does not count against the fact
-        init_nodes = {cfg.loc1(c) for c in u.inits}
-        kf = sf.at(kn, transparent=init_nodes)
+        kf = sf.at(kn, transparent=init_nodes, arrivals=real)
         ctx.ob("the verdict is cleared only while the window is uninitialised (a reused number stays rejected)", uninit_fact(kf), fi, k,
                detail="facts at the site: %s" % show_facts(kf))
-        ok = any(cfg.dominates(i, kn) and after_normal(cfg, {i}, kn) for i in init_nodes) or (bool(init_nodes) and must_complete(cfg, kn, init_nodes))
-        ctx.ob("clearing the verdict goes together with recording the number in the window", ok, fi, k)
+        # Recording: a request whose verdict was cleared is accepted when unprotect returns; on every such path an
+        # initialize_from_freshlyseen(<number>) must have run to completion -- before or after the assignment that
+        # clears the verdict, in this function or in an expanded helper whose result decides the clearing
+        # (`if self._recover(...): v = None`: the paths on which the flag is false do not reach the kill, `Values`).
+        # The graph condition (an initialisation dominates the kill, or lies on every way from the kill to the normal
+        # exit) implies the path condition, because modelled paths are paths of the graph; it is used where the path
+        # model says nothing (kill on no modelled path, path cut at the loop bound).
+        graph_ok = any(cfg.dominates(i, kn) and after_normal(cfg, {i}, kn) for i in init_nodes) or (bool(init_nodes) and must_complete(cfg, kn, init_nodes))
+        unrecorded = None
+        if real is None:
+            ok = graph_ok
+        else:
+            for p, i in real:
+                if p.end == "raise":
+                    continue  # the request is not accepted on this path
+                if p.end == "return":
+                    if any(n in init_nodes and j != i and completes_normally(p, j) for j, n in enumerate(p.nodes)):
+                        continue
+                elif graph_ok:
+                    continue
+                unrecorded = p
+                break
+            ok = unrecorded is None
+        ctx.ob("clearing the verdict goes together with recording the number in the window", ok, fi, k,
+               detail=None if unrecorded is None else "accepted without initialize_from_freshlyseen on the path: %s" % pm.describe(unrecorded))
     for c in u.inits:
         nid = cfg.loc1(c)
         facts = sf.at(nid)
@@ -2284,3 +2396,15 @@ R.seed("C12.b", F, "        try_initialize = (\n            not self.recipient_r
        "predicate as a conditional expression that no longer requires an uninitialised window")
 R.seed("C12.f", F, "            seqno = None  # sentinel for not striking out anything\n", "            seqno = None\n            own = int.from_bytes(request_id.partial_iv, \"big\")\n            seqno = own\n",
        "the request's number reaches the window through a copy")
+
+# seeds for the per-arrival reading of the kill (C12.b): the obligations are owed on the paths on which a verdict can be
+# pending and the request is accepted -- they must still bite there
+R.seed("C12.b", F, "                    self.recipient_replay_window.initialize_from_freshlyseen(seqno)\n                    replay_error = None",
+       "                    if seqno:\n                        self.recipient_replay_window.initialize_from_freshlyseen(seqno)\n                    replay_error = None",
+       "number 0 is accepted through Echo recovery without being recorded (one path of the kill lacks the initialisation)")
+R.seed("C12.b", F, "        if replay_error is not None:\n            raise replay_error\n\n        if unprotected_message.code.is_request():",
+       "        pending = replay_error\n        if try_initialize and seqno is not None:\n            pending = None\n        if pending is not None:\n            raise pending\n\n        if unprotected_message.code.is_request():",
+       "the verdict is carried under another name and dropped whenever the window was (re)initialised, Echo or not: a path with an initialisation that is not the authenticated recovery")
+R.seed("C12.b", F, _STRIKE,
+       "        if not is_response and seqno is not None:\n            if replay_error is None:\n                self.recipient_replay_window.strike_out(seqno)\n            replay_error = None\n",
+       "`replay_error = None` shared by the nothing-pending arm (where it clears nothing) and the verdict-pending arm (where it accepts a replay)")
